@@ -97,6 +97,14 @@ func (atxn *AllocTxn) PostCommit() {
 	}
 }
 
+// Modified reports whether the transaction has buffered writes or has
+// allocated or freed anything (i.e., whether abandoning it can leave cached
+// in-memory objects ahead of the disk).
+func (atxn *AllocTxn) Modified() bool {
+	return atxn.Op.NDirty() > 0 || len(atxn.allocInums) > 0 || len(atxn.allocBnums) > 0 ||
+		len(atxn.freeInums) > 0 || len(atxn.freeBnums) > 0
+}
+
 // Abort: free allocated inums and bnums. Nothing to do for freed
 // ones, because in-memory state hasn't been updated by freeINum()/freeBlock().
 func (atxn *AllocTxn) PostAbort() {
